@@ -17,6 +17,10 @@ mkdir -p "$LAB/owlmc/.cargo"
 printf '[net]\noffline = true\n[build]\ntarget-dir = "%s/target"\n' "$LAB" > "$LAB/owlmc/.cargo/config.toml"
 cp "$V/known_findings.json" "$LAB/out/" 2>/dev/null
 (cd "$LAB/repo" && git apply "$PATCH") || { echo "patch does not apply"; exit 2; }
+# rsync restores files with their old mtimes, which cargo's rerun-if-changed would take for
+# "unchanged": force the build script and every source to be looked at again
+rm -rf "$LAB"/target/verif/build/owlchess-* "$LAB"/target/release/build/owlchess-* "$LAB"/target/verif/.fingerprint/owlchess-* "$LAB"/target/release/.fingerprint/owlchess-*
+find "$LAB/repo" -name '*.rs' -exec touch {} +
 (cd "$LAB/owlmc" && cargo build --offline --profile verif >"$LAB/build.log" 2>&1 && cargo build --offline --release >>"$LAB/build.log" 2>&1) || { echo "BUILD FAILED"; tail -5 "$LAB/build.log"; echo "DETECTED_BY: (build failed)"; exit 2; }
 DET=""
 for id in $IDS; do
